@@ -91,15 +91,19 @@ Proof.
 Qed.
 
 (* ---- the loops, declaratively --------------------------------------------------------------------------------- *)
+Lemma first_unknown_cons b r :
+  first_unknown (b :: r) = if bunknown (bbody b) then Some (bmarks (bbody b)) else first_unknown r.
+Proof. unfold first_unknown. cbn [find]. destruct (bunknown (bbody b)); reflexivity. Qed.
+
 Lemma seq_blocks_denote f g bl : forall vs ds unk,
   seq_blocks f bl = (vs, ds, unk) -> good ds ->
   (forall b, In b bl -> good (snd (f b)) -> fst (f b) = g b) ->
-  unk = existsb (fun b => bunknown (bbody b)) bl /\
-  (unk = false -> vs = map (fun b => prepare_body_val (g b) (bbody b)) bl).
+  unk = first_unknown bl /\
+  (unk = None -> vs = map (fun b => prepare_body_val (g b) (bbody b)) bl).
 Proof.
   induction bl as [|b r IH]; intros vs ds unk E G H; cbn [seq_blocks] in E.
   - inversion E. auto.
-  - destruct (f b) as [v d] eqn:F. cbn [existsb map]. destruct (bunknown (bbody b)).
+  - destruct (f b) as [v d] eqn:F. rewrite first_unknown_cons. cbn [map]. destruct (bunknown (bbody b)).
     + inversion E; subst. split; [reflexivity|discriminate].
     + destruct (seq_blocks f r) as [[vs' ds'] u'] eqn:S. specialize (IH vs' ds' u' eq_refl).
       inversion E; subst. apply good_app in G as [G1 G2].
@@ -111,14 +115,14 @@ Qed.
 Lemma keyed_blocks_denote nl f g bl : forall acc dacc items ds unk,
   keyed_blocks nl f bl acc dacc = (items, ds, unk) -> good ds ->
   (forall b, In b bl -> good (snd (f b)) -> fst (f b) = g b) ->
-  unk = existsb (fun b => bunknown (bbody b)) bl /\
-  (unk = false ->
+  unk = first_unknown bl /\
+  (unk = None ->
    items = acc ++ first_per_path
                     (map (fun b => (firstn nl (blabels b), prepare_body_val (g b) (bbody b))) bl) acc).
 Proof.
   induction bl as [|b r IH]; intros acc dacc items ds unk E G H; cbn [keyed_blocks] in E.
   - inversion E. cbn. rewrite app_nil_r. auto.
-  - cbn [existsb map first_per_path fst]. destruct (bunknown (bbody b)).
+  - rewrite first_unknown_cons. cbn [map first_per_path fst]. destruct (bunknown (bbody b)).
     + inversion E; subst. split; [reflexivity|discriminate].
     + destruct (_ || _).
       { exfalso. inversion E; subst. apply good_app in G as [_ [_ [G _]]]. discriminate. }
@@ -186,7 +190,7 @@ Proof.
     cbn [sdecode denote] in *. destruct R as [_ R]. rewrite (R tn (label_count s)) in * by (left; reflexivity).
     destruct (seq_blocks _ _) as [[vs ds] unk] eqn:S.
     assert (Gds : good ds).
-    { destruct unk; [exact G|]. destruct vs as [|v0 vr]; cbn [snd] in G.
+    { destruct unk as [um|]; [exact G|]. destruct vs as [|v0 vr]; cbn [snd] in G.
       - apply good_app in G as [G _]. exact G.
       - destruct (homogenise (v0 :: vr)) as [vs' u| | |]; cbn [snd] in G.
         + unfold or_panic in G. destruct (list_val vs'); cbn [snd] in G;
@@ -196,7 +200,7 @@ Proof.
         + repeat (apply good_app in G as [G _]); exact G. }
     destruct (seq_blocks_denote _ (fun bk => denote s c (bbody bk) (blabels bk)) _ _ _ _ S Gds) as [U V].
     { intros bk _ Gb. cbn beta in *. apply via_body_denote; [|exact Gb]. intros ct' R' G'. apply IHs; auto. }
-    rewrite <- U. destruct unk; [reflexivity|]. rewrite <- (V eq_refl).
+    rewrite <- U. destruct unk as [um|]; [reflexivity|]. rewrite <- (V eq_refl).
     destruct vs as [|v0 vr]; [reflexivity|].
     destruct (homogenise (v0 :: vr)) as [vs' u| | |]; try reflexivity.
     unfold or_panic. destruct (list_val vs'); reflexivity.
@@ -204,15 +208,15 @@ Proof.
     cbn [sdecode denote] in *. destruct R as [_ R]. rewrite (R tn (label_count s)) in * by (left; reflexivity).
     destruct (seq_blocks _ _) as [[vs ds] unk] eqn:S.
     assert (Gds : good ds).
-    { destruct unk; [exact G|]. cbn [snd] in G. apply good_app in G as [G _]. exact G. }
+    { destruct unk as [um|]; [exact G|]. cbn [snd] in G. apply good_app in G as [G _]. exact G. }
     destruct (seq_blocks_denote _ (fun bk => denote s c (bbody bk) (blabels bk)) _ _ _ _ S Gds) as [U V].
     { intros bk _ Gb. cbn beta in *. apply via_body_denote; [|exact Gb]. intros ct' R' G'. apply IHs; auto. }
-    rewrite <- U. destruct unk; [reflexivity|]. rewrite <- (V eq_refl). reflexivity.
+    rewrite <- U. destruct unk as [um|]; [reflexivity|]. rewrite <- (V eq_refl). reflexivity.
   - (* BlockSetSpec *)
     cbn [sdecode denote] in *. destruct R as [_ R]. rewrite (R tn (label_count s)) in * by (left; reflexivity).
     destruct (seq_blocks _ _) as [[vs ds] unk] eqn:S.
     assert (Gds : good ds).
-    { destruct unk; [exact G|]. destruct vs as [|v0 vr]; cbn [snd] in G.
+    { destruct unk as [um|]; [exact G|]. destruct vs as [|v0 vr]; cbn [snd] in G.
       - apply good_app in G as [G _]. exact G.
       - destruct (homogenise (v0 :: vr)) as [vs' u| | |]; cbn [snd] in G.
         + unfold or_panic in G. destruct (set_val vs'); cbn [snd] in G;
@@ -222,7 +226,7 @@ Proof.
         + repeat (apply good_app in G as [G _]); exact G. }
     destruct (seq_blocks_denote _ (fun bk => denote s c (bbody bk) (blabels bk)) _ _ _ _ S Gds) as [U V].
     { intros bk _ Gb. cbn beta in *. apply via_body_denote; [|exact Gb]. intros ct' R' G'. apply IHs; auto. }
-    rewrite <- U. destruct unk; [reflexivity|]. rewrite <- (V eq_refl).
+    rewrite <- U. destruct unk as [um|]; [reflexivity|]. rewrite <- (V eq_refl).
     destruct vs as [|v0 vr]; [reflexivity|].
     destruct (homogenise (v0 :: vr)) as [vs' u| | |]; try reflexivity.
     unfold or_panic. destruct (set_val vs'); reflexivity.
@@ -232,14 +236,14 @@ Proof.
     destruct (has_dyn _) eqn:D; [exfalso; destruct G as [_ [G _]]; discriminate|].
     destruct (keyed_blocks _ _ _ _ _) as [[items ds] unk] eqn:K.
     assert (Gds : good ds).
-    { destruct unk; [exact G|]. destruct (panicked ds); [exact G|].
+    { destruct unk as [um|]; [exact G|]. destruct (panicked ds); [exact G|].
       destruct items; cbn [snd] in G.
       - apply good_app in G as [G _]. exact G.
       - unfold or_panic in G. destruct (nest _ _ _); cbn [snd] in G; [exact G|].
         apply good_app in G as [G _]. exact G. }
     destruct (keyed_blocks_denote _ _ (fun bk => denote s c (bbody bk) (skipn (length ls) (blabels bk))) _ _ _ _ _ _ K Gds) as [U V].
     { intros bk _ Gb. cbn beta in *. apply via_body_denote; [|exact Gb]. intros ct' R' G'. apply IHs; auto. }
-    rewrite <- U. destruct unk; [reflexivity|]. cbn [app] in V. rewrite <- (V eq_refl).
+    rewrite <- U. destruct unk as [um|]; [reflexivity|]. cbn [app] in V. rewrite <- (V eq_refl).
     destruct Gds as [_ [P _]]. rewrite P in *.
     destruct items as [|i0 ir].
     + cbn [fst snd] in *. destruct ls as [|l0 [|l1 lr]]; [reflexivity|reflexivity|].
@@ -250,13 +254,13 @@ Proof.
     rewrite (R tn (length ls + label_count s)%nat) in * by (left; reflexivity).
     destruct (keyed_blocks _ _ _ _ _) as [[items ds] unk] eqn:K.
     assert (Gds : good ds).
-    { destruct unk; [exact G|]. destruct (panicked ds); [exact G|].
+    { destruct unk as [um|]; [exact G|]. destruct (panicked ds); [exact G|].
       destruct items; cbn [snd] in G; [exact G|].
       unfold or_panic in G. destruct (nest _ _ _); cbn [snd] in G; [exact G|].
       apply good_app in G as [G _]. exact G. }
     destruct (keyed_blocks_denote _ _ (fun bk => denote s c (bbody bk) (skipn (length ls) (blabels bk))) _ _ _ _ _ _ K Gds) as [U V].
     { intros bk _ Gb. cbn beta in *. apply via_body_denote; [|exact Gb]. intros ct' R' G'. apply IHs; auto. }
-    rewrite <- U. destruct unk; [reflexivity|]. cbn [app] in V. rewrite <- (V eq_refl).
+    rewrite <- U. destruct unk as [um|]; [reflexivity|]. cbn [app] in V. rewrite <- (V eq_refl).
     destruct Gds as [_ [P _]]. rewrite P in *.
     destruct items as [|i0 ir]; [reflexivity|].
     unfold or_panic. destruct (nest obj_val (length ls) (i0 :: ir)); reflexivity.
